@@ -18,21 +18,15 @@ impl PanicReport {
     /// stable site: file name + message with digits/hex stripped (line shifts do not matter)
     pub fn site(&self) -> String {
         let f = self.file.rsplit('/').next().unwrap_or("").to_string();
-        let mut m = String::new();
-        let mut last_us = false;
-        for c in self.msg.chars().filter(|c| !c.is_ascii_digit()).take(60) {
-            let c = if c.is_ascii_alphabetic() { c } else { '_' };
-            if c == '_' {
-                if !last_us {
-                    m.push('_');
-                }
-                last_us = true;
-            } else {
-                m.push(c);
-                last_us = false;
-            }
-        }
-        format!("{}:{}", f, m.trim_matches('_'))
+        // first six purely alphabetic words of the message (values, digits, punctuation dropped)
+        let words: Vec<String> = self
+            .msg
+            .split(|c: char| !c.is_ascii_alphabetic())
+            .filter(|w| w.len() > 1)
+            .take(6)
+            .map(|w| w.to_string())
+            .collect();
+        format!("{}:{}", f, words.join("_"))
     }
 }
 
